@@ -356,6 +356,10 @@ fn write_data_to_stream<F: Read + Write + Seek>(
     debug_assert!(buf_offset_from_start <= old_stream_len);
     let new_stream_len =
         old_stream_len.max(buf_offset_from_start + buf.len() as u64);
+    // When the stream migrates to another kind of chain, the old chain is
+    // freed only after the directory entry points at the new one, so that a
+    // failure in between cannot leave the entry pointing at freed sectors.
+    let mut old_chain = OldChain::Keep;
     let new_start_sector = if old_start_sector == consts::END_OF_CHAIN {
         // Case 1: The stream has no existing chain.  The stream is empty, and
         // we are writing at the start.  (In a damaged file, an entry without
@@ -401,7 +405,7 @@ fn write_data_to_stream<F: Read + Write + Seek>(
             let mut tmp = vec![0u8; buf_offset_from_start as usize];
             let mut chain = minialloc.open_mini_chain(old_start_sector)?;
             chain.read_exact(&mut tmp)?;
-            chain.free()?;
+            old_chain = OldChain::FreeMini(old_start_sector);
             let mut chain = minialloc
                 .open_chain(consts::END_OF_CHAIN, SectorInit::Zero)?;
             chain.write_all(&tmp)?;
@@ -424,7 +428,33 @@ fn write_data_to_stream<F: Read + Write + Seek>(
     minialloc.with_dir_entry_mut(stream_id, |dir_entry| {
         dir_entry.start_sector = new_start_sector;
         dir_entry.stream_len = new_stream_len;
-    })
+    })?;
+    old_chain.free(minialloc)
+}
+
+/// What to do with a stream's previous chain once its directory entry has been
+/// updated.
+enum OldChain {
+    Keep,
+    FreeMini(u32),
+    FreeRegular(u32),
+}
+
+impl OldChain {
+    fn free<F: Read + Write + Seek>(
+        self,
+        minialloc: &mut MiniAllocator<F>,
+    ) -> io::Result<()> {
+        match self {
+            OldChain::Keep => Ok(()),
+            OldChain::FreeMini(start) => {
+                minialloc.open_mini_chain(start)?.free()
+            }
+            OldChain::FreeRegular(start) => {
+                minialloc.open_chain(start, SectorInit::Zero)?.free()
+            }
+        }
+    }
 }
 
 /// If `new_stream_len` is less than the stream's current length, then the
@@ -440,6 +470,9 @@ fn resize_stream<F: Read + Write + Seek>(
         debug_assert_eq!(dir_entry.obj_type, ObjType::Stream);
         (dir_entry.start_sector, dir_entry.stream_len)
     };
+    // As in `write_data_to_stream`, a chain that the stream migrates away from
+    // is freed only after the directory entry has been updated.
+    let mut old_chain = OldChain::Keep;
     let new_start_sector = if old_start_sector == consts::END_OF_CHAIN {
         // Case 1: The stream has no existing chain.  We will allocate a new
         // chain that is all zeroes.  (In a damaged file, an entry without a
@@ -492,7 +525,7 @@ fn resize_stream<F: Read + Write + Seek>(
             let mut tmp = vec![0u8; old_stream_len as usize];
             let mut chain = minialloc.open_mini_chain(old_start_sector)?;
             chain.read_exact(&mut tmp)?;
-            chain.free()?;
+            old_chain = OldChain::FreeMini(old_start_sector);
             let mut chain = minialloc
                 .open_chain(consts::END_OF_CHAIN, SectorInit::Zero)?;
             chain.write_all(&tmp)?;
@@ -513,7 +546,7 @@ fn resize_stream<F: Read + Write + Seek>(
             let mut chain =
                 minialloc.open_chain(old_start_sector, SectorInit::Zero)?;
             chain.read_exact(&mut tmp)?;
-            chain.free()?;
+            old_chain = OldChain::FreeRegular(old_start_sector);
             let mut chain = minialloc.open_mini_chain(consts::END_OF_CHAIN)?;
             chain.write_all(&tmp)?;
             chain.start_sector_id()
@@ -544,7 +577,8 @@ fn resize_stream<F: Read + Write + Seek>(
     minialloc.with_dir_entry_mut(stream_id, |dir_entry| {
         dir_entry.start_sector = new_start_sector;
         dir_entry.stream_len = new_stream_len;
-    })
+    })?;
+    old_chain.free(minialloc)
 }
 
 //===========================================================================//
